@@ -43,11 +43,12 @@ META = {
     'assumptions': ['events reach the engine only at EventQueues.check_events (one per statement)',
                     'one program statement per line, so boundary k+1 of RUN precedes the k-th executed statement'],
     'exhaustive': {
-        'quick': ('for each of the listed quick program shapes (single-trap shapes and two-trap shapes): ALL placements of at most 3 '
+        'quick': ('for each of the 27 quick program shapes of shape_list() (24 single-trap (main, handler) combinations over KEY/TIMER/PEN/STRIG, '
+                  '3 two-trap shapes; 27402 schedules): ALL placements of at most 3 '
                   'occurrences over (trap, position) slots, position = before statement boundary 1..14 or after END, no two '
                   'occurrences of one trap at one position'),
-        'thorough': ('for every (main, handler) combination of the single-trap family with 2 event kinds each, the two-trap shapes '
-                     'and the three-trap shapes: ALL placements of at most 4 occurrences over (trap, position) slots, position = '
+        'thorough': ('for every (main, handler) combination of the single-trap family (10 x 8) with 2 event kinds each, the 6 two-trap shapes '
+                     'and the 2 three-trap shapes (168 shapes, 830588 schedules): ALL placements of at most 4 occurrences over (trap, position) slots, position = '
                      'before statement boundary 1..14 or after END, no two occurrences of one trap at one position'),
     },
     'require_counters': {'any': ['handler_entries_observed', 'occurrences_lost_while_off', 'occurrences_remembered_during_stop',
